@@ -697,7 +697,13 @@ func (c14) Eval(t *testing.T, c *Case, dec func(int) *Decider) *Outcome {
 			o.Stats.Probes = addProbe(o.Stats.Probes, "pool-objects-reissued", res.PoolReissued)
 			o.Stats.Probes = addProbe(o.Stats.Probes, "join-record-pool-reissued", res.DynReissued)
 		}
-		if res.Hang != "" || res.LimitHit || res.BubbleErr != "" || res.Procs[0].Panic != "" {
+		if res.LimitHit && res.Hang == "" && res.BubbleErr == "" && res.Procs[0].Panic == "" {
+			// the step budget of the simulator ran out while the program was making progress: the
+			// outputs of this scenario are incomplete and nothing is compared (see c12.go)
+			o.Stats.probe("step-limit-inconclusive")
+			return o
+		}
+		if res.Hang != "" || res.BubbleErr != "" || res.Procs[0].Panic != "" {
 			o.viol(prop, "termination", "hang-or-panic:"+pol, fmt.Sprintf("run with pool policy %s did not end normally: %s %s %s", pol, res.Hang, res.BubbleErr, res.Procs[0].Panic))
 			continue
 		}
@@ -793,6 +799,10 @@ func (c14) Eval(t *testing.T, c *Case, dec func(int) *Decider) *Outcome {
 		full.Knobs.Pool = "fresh"
 		resF, _ := Execute(t, &full, dec(len(policies)+1))
 		o.Runs++
+		if resA.LimitHit || resF.LimitHit {
+			o.Stats.probe("step-limit-inconclusive")
+			return o
+		}
 		sa, _, _ := shellSections(resA.Procs[0].Stdout)
 		sf, _, _ := shellSections(resF.Procs[0].Stdout)
 		for k := 0; k < len(meta.Stmts)-xi; k++ {
@@ -823,6 +833,10 @@ func (c14) Eval(t *testing.T, c *Case, dec func(int) *Decider) *Outcome {
 		full.Knobs.Pool = "fresh"
 		resA, _ := Execute(t, &full, dec(len(policies)+3))
 		o.Runs++
+		if resA.LimitHit || resB.LimitHit {
+			o.Stats.probe("step-limit-inconclusive")
+			return o
+		}
 		sa, _, _ := shellSections(resA.Procs[0].Stdout)
 		sb, _, _ := shellSections(resB.Procs[0].Stdout)
 		da := sa[fmt.Sprintf("%d.0", len(meta.Stmts)-1)]
@@ -846,6 +860,10 @@ func (c14) Eval(t *testing.T, c *Case, dec func(int) *Decider) *Outcome {
 		alt.Knobs.Pool = "lifo"
 		resB, _ := Execute(t, &alt, dec(len(policies)+4))
 		o.Runs++
+		if resB.LimitHit && resB.Hang == "" && resB.Procs[0].Panic == "" {
+			o.Stats.probe("step-limit-inconclusive")
+			return o
+		}
 		sb, _, _ := shellSections(resB.Procs[0].Stdout)
 		base, ext := freshSecs["1.0"], sb["1.0"]
 		switch {
